@@ -62,6 +62,7 @@ type Ctx struct {
 	Samples  []any
 	Assume   []string
 	Overlay  map[string][]byte // in-memory variant of source files (thorough audit)
+	Variants []map[string]any  // outcome of the thorough tier's variant audit
 	loadErr  error
 	RepoDir  string
 	Explain  []string
@@ -433,6 +434,18 @@ func (c *Ctx) Finish(verifDir string, started time.Time) int {
 	}
 	if len(c.Explain) > 0 {
 		cov["notes"] = c.Explain
+	}
+	if c.Tier == "thorough" {
+		det := 0
+		for _, v := range c.Variants {
+			if v["status"] == "detected" {
+				det++
+			}
+		}
+		cov["variant_audit"] = map[string]any{
+			"what":     "stored seeded changes for this property applied to an in-memory overlay of the current sources and analysed with the same rules (the real tree is untouched and its verdict unaffected)",
+			"variants": c.Variants, "generated": len(c.Variants), "detected": det,
+		}
 	}
 	ev := map[string]any{
 		"property_id": id, "tier": c.Tier, "seed": seed, "level": "other", "coverage": cov,
